@@ -279,6 +279,11 @@ class MinFlowDecompCycles(walkmodel.AbstractWalkModelDiGraph):
 
     def _get_lowerbound_with_min_gen_set(self) -> int:
 
+        # The generating set bound assumes that the walk weights explain the flow of every edge and sum up to the
+        # flow leaving the sources; this is not the case if some edge carrying a flow value is ignored
+        if any(self.G.has_edge(*e) and self.flow_attr in self.G.edges[e] for e in self.edges_to_ignore):
+            return None
+
         min_gen_set_start_time = time.perf_counter()
         all_weights = list(set({self.G.edges[e][self.flow_attr] for e in self.G.edges() if self.flow_attr in self.G.edges[e]}))
         # Get the source_flow as the sum of the out_flow - in_flow, for all nodes
